@@ -4,6 +4,8 @@ import (
 	"fmt"
 	"runtime"
 	"sort"
+	"strings"
+	"testing/synctest"
 	"time"
 
 	"k8s.io/apimachinery/pkg/apis/meta/v1/unstructured"
@@ -41,6 +43,9 @@ type c18Handler struct {
 	slow    bool // a handler that takes 300 ms (simulated) per object of its own periodic resync
 	adding  bool // inside the AddEventHandler call (the initial replay runs under the shared handler's lock)
 	racing  bool
+	resync  time.Duration // its own resync period (0 = the informer's)
+	gate    chan struct{} // when set: the next callback of its own resync round parks here (no lock held)
+	parked  bool
 	raceKey string
 	raceIdx int // index in the cache log of the frame handed over together with the add
 }
@@ -59,8 +64,18 @@ func (h *c18Handler) rec(typ string, obj interface{}, same bool) {
 	h.world.c18seq++
 	h.events = append(h.events, c18Event{step: h.world.step, typ: typ, key: u.GetNamespace() + "/" + u.GetName(), rv: u.GetResourceVersion(), sameObjs: same, seq: h.world.c18seq})
 	slow, racing := h.slow && !h.adding, h.racing
+	var gate chan struct{}
+	if same && h.gate != nil && !h.parked && !h.adding && inOwnResyncRound() {
+		gate, h.parked = h.gate, true
+	}
 	h.world.mu.Unlock()
-	if slow && same {
+	if gate != nil {
+		<-gate // in the middle of the resync round, until the kernel says go on
+	}
+	if slow && same && inOwnResyncRound() {
+		// (only there: in the shared handler's fan-out the read lock is held, and a
+		// goroutine sleeping with it would stall every writer of that lock - and with
+		// them the simulated clock it is sleeping on)
 		time.Sleep(300 * time.Millisecond)
 	}
 	if racing && same {
@@ -68,6 +83,24 @@ func (h *c18Handler) rec(typ string, obj interface{}, same bool) {
 		// processor (no lock of the harness is held here)
 		for i := 0; i < 64; i++ {
 			runtime.Gosched()
+		}
+	}
+}
+
+// inOwnResyncRound reports whether the caller is being called from the handler's
+// own periodic resync ((*eventHandler).resync, which holds no lock) rather than
+// from the shared handler's fan-out (which holds its read lock while it calls).
+func inOwnResyncRound() bool {
+	var pcs [24]uintptr
+	n := runtime.Callers(2, pcs[:])
+	frames := runtime.CallersFrames(pcs[:n])
+	for {
+		f, more := frames.Next()
+		if strings.HasSuffix(f.Function, "(*eventHandler).resync") {
+			return true
+		}
+		if !more {
+			return false
 		}
 	}
 }
@@ -105,6 +138,7 @@ func C18Scenario() *Scenario {
 				mustCreate(w.Store, r, "ns1", Object{"metadata": Object{"name": fmt.Sprintf("o%d", i)}, childContentField(r): Object{"v": "0"}}, "user")
 			}
 		}
+		gapAt := map[*Resource]time.Duration{} // when the watch of a resource was last cut by the scenario
 		var factory *dynamicinformer.SharedInformerFactory
 		var subs []*c18Sub
 		var handlers []*c18Handler
@@ -147,7 +181,7 @@ func C18Scenario() *Scenario {
 		}
 		// one operation, drawn from the tape
 		doOp := func(w *World) {
-			kinds := []string{"subscribe", "add-handler", "add-handler-resync", "remove-handlers", "close", "object-edit", "object-create", "object-delete", "advance", "add-handler-racing", "remove-handlers-racing", "close-racing", "subscribe-racing"}
+			kinds := []string{"subscribe", "add-handler", "add-handler-resync", "remove-handlers", "close", "object-edit", "object-create", "object-delete", "advance", "add-handler-racing", "remove-handlers-racing", "close-racing", "subscribe-racing", "remove-handlers-midround", "object-delete-in-watch-gap"}
 			op := kinds[t.Pick(len(kinds), "op")]
 			var open []*c18Sub
 			for _, s := range subs {
@@ -282,7 +316,11 @@ func C18Scenario() *Scenario {
 					w.mu.Lock()
 					h.slow = slow
 					w.mu.Unlock()
-					s.ri.Informer().AddEventHandlerWithResyncPeriod(h, time.Duration(2+t.Pick(20, "resync"))*time.Second)
+					period := time.Duration(2+t.Pick(20, "resync")) * time.Second
+					w.mu.Lock()
+					h.resync = period
+					w.mu.Unlock()
+					s.ri.Informer().AddEventHandlerWithResyncPeriod(h, period)
 					if h.slow {
 						w.Probe("c18:slow-handler-with-own-resync")
 					}
@@ -299,6 +337,70 @@ func C18Scenario() *Scenario {
 				s.ri.Informer().RemoveEventHandlers()
 				markRemoved(s)
 				opLog = append(opLog, fmt.Sprintf("%d %s sub#%d", w.step, op, s.id))
+			case "remove-handlers-midround":
+				// a handler with its own resync period is in the middle of a round (parked in a
+				// callback) when the handlers of its subscription are removed by another
+				// goroutine: the removing call may return only when the round is over
+				var cand []*c18Handler
+				for _, h := range handlers {
+					if h.resync > 0 && !h.slow && h.removeStep == 0 && h.sub.closeStep == 0 && len(w.Cache.View(w.inc, h.sub.res, w.step)) > 0 {
+						cand = append(cand, h)
+					}
+				}
+				for _, h := range handlers {
+					// (not next to a slow handler of the same resource: see handFrame)
+					for i := 0; i < len(cand); i++ {
+						if h.slow && h.removeStep == 0 && h.sub.res == cand[i].sub.res {
+							cand = append(cand[:i], cand[i+1:]...)
+							i--
+						}
+					}
+				}
+				if len(cand) == 0 {
+					return
+				}
+				h := cand[t.Pick(len(cand), "handler")]
+				gate := make(chan struct{})
+				w.mu.Lock()
+				h.gate, h.parked = gate, false
+				w.mu.Unlock()
+				for i := 0; i < 3; i++ {
+					time.Sleep(h.resync)
+					synctest.Wait()
+					w.mu.Lock()
+					parked := h.parked
+					w.mu.Unlock()
+					if parked {
+						break
+					}
+				}
+				w.SimSeconds += 3 * h.resync.Seconds()
+				w.mu.Lock()
+				parked := h.parked
+				if !parked {
+					h.gate = nil
+				}
+				w.mu.Unlock()
+				if !parked {
+					close(gate)
+					return
+				}
+				returned := make(chan struct{})
+				sub := h.sub
+				go func() {
+					sub.ri.Informer().RemoveEventHandlers()
+					markRemoved(sub)
+					close(returned)
+				}()
+				synctest.Wait()
+				w.mu.Lock()
+				h.gate = nil
+				w.mu.Unlock()
+				close(gate)
+				<-returned
+				synctest.Wait()
+				w.Probe("c18:handlers-removed-in-the-middle-of-a-resync-round")
+				opLog = append(opLog, fmt.Sprintf("%d remove-handlers-midround sub#%d (handler#%d parked)", w.step, sub.id, h.id))
 			case "close", "close-racing":
 				if len(open) == 0 {
 					return
@@ -325,9 +427,41 @@ func C18Scenario() *Scenario {
 					w.Store.Delete(res, "ns1", name, DeleteOpts{}, "user")
 				}
 				opLog = append(opLog, fmt.Sprintf("%d %s %s/%s", w.step, op, res.Kind, name))
+			case "object-delete-in-watch-gap":
+				// the watch of a resource breaks, an object is deleted, the history is compacted:
+				// the informer learns of the deletion only from its re-list (a tombstone)
+				res := resources[t.Pick(len(resources), "res")]
+				name := fmt.Sprintf("o%d", t.Pick(4, "obj"))
+				if w.Store.Get(res, "ns1", name) == nil {
+					return
+				}
+				broke := false
+				for _, ws := range w.OpenStreams() {
+					if ws.Res == res {
+						w.BreakWatch(ws)
+						broke = true
+					}
+				}
+				if !broke {
+					return
+				}
+				w.Store.Delete(res, "ns1", name, DeleteOpts{}, "user")
+				w.Store.Compact(w.Store.RV())
+				gapAt[res] = w.Now() + 1
+				w.FaultsFired["watch:410-relist-tombstone"]++
+				opLog = append(opLog, fmt.Sprintf("%d object-delete-in-watch-gap %s/%s", w.step, res.Kind, name))
 			case "advance":
 				w.Sleep(time.Duration(1+t.Pick(40, "secs")) * time.Second)
 			}
+		}
+		// rest means: every resource somebody is subscribed to has its watch (again)
+		w.ConnectedHook = func() bool {
+			for _, res := range resources {
+				if count(res) > 0 && liveWatch(res) == 0 {
+					return false
+				}
+			}
+			return true
 		}
 		check := func(w *World, final bool) *Violation {
 			// (1) one informer runs while a subscription is open, none after the last one closed
@@ -336,6 +470,9 @@ func C18Scenario() *Scenario {
 				if n == 0 && lw > 0 {
 					return &Violation{Prop: "C18", Class: "informer-survives-last-close", Sig: sig,
 						Detail: fmt.Sprintf("no subscription to %s is open, yet %d WATCH stream(s) are still live (ops: %v)", res.Plural, lw, opLog)}
+				}
+				if n > 0 && lw == 0 && !final && gapAt[res] != 0 && w.Now()-gapAt[res] < time.Minute {
+					continue // its watch was cut a moment ago: the reflector is waiting to reconnect
 				}
 				if n > 0 && lw != 1 && w.Idle() {
 					return &Violation{Prop: "C18", Class: "no-single-informer-while-subscribed", Sig: sig,
@@ -375,6 +512,38 @@ func C18Scenario() *Scenario {
 							return &Violation{Prop: "C18", Class: "no-replay-of-cached-object", Sig: sig,
 								Detail: fmt.Sprintf("handler#%d (sub#%d, %s) was added at step %d when %s/%s was cached, but never received it (ops: %v)", h.id, h.sub.id, res.Kind, h.addStep, k.ns, k.name, opLog)}
 						}
+					}
+				}
+				// every deletion the informer learnt from a re-list while the handler was registered
+				first := true
+				for i := range w.Cache.log {
+					ch := &w.Cache.log[i]
+					if ch.Inc != h.sub.inc || ch.Res != res.Key() || !ch.List {
+						continue
+					}
+					if first {
+						first = false // the initial list
+						continue
+					}
+					if ch.Step <= h.addStep || (h.removeStep != 0 && ch.Step >= h.removeStep) || (h.sub.closeStep != 0 && ch.Step >= h.sub.closeStep) {
+						continue
+					}
+					before, after := w.Cache.View(h.sub.inc, res, ch.Step-1), w.Cache.View(h.sub.inc, res, ch.Step)
+					for _, k := range viewKeys(before) {
+						if _, still := after[k]; still {
+							continue
+						}
+						found := false
+						for _, e := range h.events {
+							if e.typ == "delete" && e.key == k.ns+"/"+k.name && e.step >= ch.Step {
+								found = true
+							}
+						}
+						if !found {
+							return &Violation{Prop: "C18", Class: "event-not-delivered", Sig: sig,
+								Detail: fmt.Sprintf("handler#%d (sub#%d, %s), registered from step %d: %s/%s was gone from the re-list of step %d, and the handler was never told of the deletion (ops: %v)", h.id, h.sub.id, res.Kind, h.addStep, k.ns, k.name, ch.Step, opLog)}
+						}
+						w.Probe("c18:deletion-learnt-from-relist-delivered")
 					}
 				}
 				// every frame delivered to this process for the resource while the handler was registered
